@@ -293,6 +293,10 @@ def evaluate_sequential(case, runner):
         if name == "cleanup":
             # the clock after cleanup is not specified
             got_state, exp_state = got_state[:2], exp_state[:2]
+        if getattr(ref, "cleaned_by_handler", False):
+            # cleanup() issued by a handler of this run: only the replication state
+            # is specified afterwards
+            got_state, exp_state = got_state[1:2], exp_state[1:2]
         if got_state != exp_state:
             cid = "state-after-command"
             if got_state[:2] == exp_state[:2]:
